@@ -105,10 +105,22 @@ WirePCs  == {"dmax", "dmaxp1"}                           \* cannot be published 
 OverPCs  == {"maxp1", "dmaxp1"}
 OverHCs  == {"hmaxp1"}
 
+\* How the body reaches the ingress handler:
+\*   handler  in-process request with a known length          wire     raw bytes on the real listener, Content-Length
+\*   stream   in-process request of unknown length             chunked  raw bytes on the real listener, Transfer-Encoding:
+\*            (what chunked / HTTP/2 looks like to a handler)           chunked, no declared length
+IngressVias == {"handler", "wire", "stream", "chunked"}
+FramePCs    == {"empty", "all256", "maxm1", "max", "maxp1", "big", "dmax", "dmaxp1"}   \* sizes where the framing matters
+
+\* Shape of the publish request that carries the message M: alone, or in one batch with sibling items of the harness
+\* (S+ has headers and a trace map, S- has neither; siblings go to the auxiliary route, so batches also mix routes):
+\*   single <<M>>     after <<S+, M>>     before <<M, S->>     middle <<S+, M, S->>
+PubShapes == {"single", "after", "before", "middle"}
+
 \* an input = everything that is chosen before the message is sent
 ValidInput(i) ==
-  /\ i.src = "publish" => i.hc \in PublishHCs /\ i.via = "api" /\ ~i.fwd /\ i.pc \notin WirePCs
-  /\ i.src = "ingress" => i.via \in {"handler", "wire"}
+  /\ i.src = "publish" => i.hc \in PublishHCs /\ i.via = "api" /\ ~i.fwd /\ i.pc \notin WirePCs /\ i.pb \in PubShapes
+  /\ i.src = "ingress" => i.via \in IngressVias /\ i.pb = "single"
   /\ i.hc \in CopyHCs => i.fwd
   /\ (i.pc \in LimPCs \/ i.hc \in LimHCs) => i.lim
   /\ i.pc \in DefPCs => ~i.lim
